@@ -1,7 +1,7 @@
 CONSTANTS
  Dev = {"uint-stale-erange", "float-stale-erange", "uint-negative-wraps", "duration-digits-overflow", "duration-unit-overflow", "create-nonstring-exe-name-throws"}
  Hist = FALSE Mode = "trace" Keys = {} Vals = {} EKeys = {} SVals = {} Urls = {} TokKinds = {} MaxTok = 0 SvcKinds = {}
- MaxPool = 0 MaxProv = 0 MaxSteps = 0 RdKinds = {} RdPres = {} RdBodies = {} RdSufs = {} RdTb = {} RdErr = {}
+ MaxPool = 0 MaxProv = 0 MaxSteps = 0 DefUrls = {} DefExtras = {} EnvUrls = {} RdKinds = {} RdPres = {} RdBodies = {} RdSufs = {} RdTb = {} RdErr = {}
 INIT TInit
 NEXT TNext
 CONSTRAINT Progress
